@@ -127,6 +127,15 @@ def gen_macro_files(rnd):
             "#ifdef CONFIG_USER_ONLY"] + defs(2, "fU") + ["#endif", '#include "x.h"', "/* block comment */", " * continued"] + defs(3, "fM") + ["#endif"]
     vec = ["#ifdef QEMU_GENERATE"] + defs(3, "fV") + ["#else"] + defs(2, "fV") + ["#endif"] + defs(2, "fM")
     patches = defs(4, "fM") + defs(2, "fNEW") + ["// not a define", "#define fLONG(A) \\\n   (A)"]
+    if rnd.random() < 0.5:
+        # NO user-only patch: every patch names a macro the sources define (several times, also AFTER the place where the last patch
+        # is consumed), so that the set of pending patches runs empty in the middle of the original definitions
+        inc_ = defs(4, "fI")
+        names = re.findall(r"^#define\s+(\w+)", "\n".join(body + vec + inc_), re.M)
+        dup = [n for n in dict.fromkeys(names) if names.count(n) > 1 and n.startswith("f")] or [n for n in names if n.startswith("f")]
+        chosen = rnd.sample(dup, min(len(dup), rnd.randint(1, 3)))
+        patches = [f"#define {n}(A) patched_{n}(A)" for n in chosen] + ["// not a define"]
+        return "\n".join(body) + "\n", "\n".join(inc_) + "\n", "\n".join(vec) + "\n", "\n".join(patches) + "\n"
     return "\n".join(body) + "\n", "\n".join(defs(4, "fI")) + "\n", "\n".join(vec) + "\n", "\n".join(patches) + "\n"
 
 
